@@ -160,6 +160,8 @@ def c15(chk, tier):
                         what="every history up to MaxLen, 7 registration orders x 2 default-action kinds")
     if r.violation:
         chk.model_violation(r, "Flag.tla", {})
+    import props
+    props.step(chk, tier)
 
 
 def c14(chk, tier):
@@ -176,6 +178,12 @@ def c14(chk, tier):
 
 
 def c13(chk, tier):
+    _c13(chk, tier)
+    import props
+    props.step(chk, tier)
+
+
+def _c13(chk, tier):
     chk.extra["rule"] = ("forked probes with real descriptors: kind x fill level x burst; per probe bytes read back, "
                          "blocking detected by a watchdog alarm, F_GETFD after unregister, descriptor-number reuse; "
                          "plus rejected registrations; distinct = distinct (kind, fill, burst, observations)")
